@@ -150,12 +150,13 @@ def devTaglessClause (bs : List Batch) : Bool := bs.any (fun b => !b.tags.isEmpt
 def devTaglessApply (bs : List Batch) : List Batch :=
   bs.map (fun b => { b with points := b.points.map (fun p => if p.tags.isEmpty then { p with tags := b.tags } else p) })
 
-/-- The deviations whose clause holds of this input, in a fixed order, with the rewritten input. -/
+/-- The deviations whose clause holds of this input, in a fixed order, and the input rewritten by them (each rewrite
+is the identity on inputs to which its clause does not apply). -/
 def batchDevs (bs : List Batch) : List String × List Batch :=
-  let (k1, bs1) := if devIntClause bs then (["batch-int-as-float"], devIntApply bs) else ([], bs)
-  let (k2, bs2) := if devTaglessClause bs1 then (["batch-tagless-point-inherits"], devTaglessApply bs1) else ([], bs1)
-  let (k3, bs3) := if devEmptyClause bs2 then (["batch-empty-skipped"], devEmptyApply bs2) else ([], bs2)
-  (k1 ++ k2 ++ k3, bs3)
+  ((if devIntClause bs then ["batch-int-as-float"] else []) ++
+   (if devTaglessClause bs then ["batch-tagless-point-inherits"] else []) ++
+   (if devEmptyClause bs then ["batch-empty-skipped"] else []),
+   devEmptyApply (devTaglessApply (devIntApply bs)))
 
 /-- Keep the group observations of the batches that survive `devEmptyApply`. -/
 def devGroups (bs : List Batch) (gs : List (Bytes × List Bytes)) : List (Bytes × List Bytes) :=
